@@ -235,11 +235,9 @@ struct Mismatch {
     at: usize,
     reference_at: usize,
     decl: usize,
-    expected: Outcome,
-    observed: Outcome,
 }
 
-fn find_mismatch(history: &[Invocation], outcomes: &[Outcome]) -> Option<Mismatch> {
+fn find_mismatch<O: PartialEq>(history: &[Invocation], outcomes: &[O]) -> Option<Mismatch> {
     let mut first: BTreeMap<usize, usize> = BTreeMap::new();
     for (i, inv) in history.iter().enumerate() {
         if let Some(d) = inv.decl {
@@ -253,8 +251,6 @@ fn find_mismatch(history: &[Invocation], outcomes: &[Outcome]) -> Option<Mismatc
                             at: i,
                             reference_at: r,
                             decl: d,
-                            expected: outcomes[r].clone(),
-                            observed: outcomes[i].clone(),
                         });
                     }
                 }
@@ -262,6 +258,155 @@ fn find_mismatch(history: &[Invocation], outcomes: &[Outcome]) -> Option<Mismatc
         }
     }
     None
+}
+
+/// what a child process reports about one invocation: enough to decide byte equality
+#[derive(Clone, Debug, PartialEq, Eq)]
+struct Dig {
+    class: String,
+    len: usize,
+    h1: u64,
+    h2: u64,
+}
+
+fn digest_of(o: &Outcome) -> Dig {
+    let t = outcome_text(o);
+    let mut h2 = 0x9E37_79B9_7F4A_7C15u64;
+    for b in t.bytes().rev() {
+        h2 = (h2 ^ b as u64).wrapping_mul(0x100_0000_01b3).rotate_left(5);
+    }
+    Dig {
+        class: outcome_class(o).to_string(),
+        len: t.len(),
+        h1: fnv(t.as_bytes()),
+        h2,
+    }
+}
+
+fn history_lines(h: &[Invocation]) -> String {
+    let mut s = String::new();
+    for inv in h {
+        s.push_str(&format!(
+            "{}\t{}\t{}\t{}\t{}\n",
+            inv.thread,
+            strat_name(inv.strategy),
+            inv.hseed,
+            match inv.decl {
+                Some(d) => d.to_string(),
+                None => "-".to_string(),
+            },
+            inv.src.replace('\\', "\\\\").replace('\n', "\\n")
+        ));
+    }
+    s
+}
+
+fn unescape(s: &str) -> String {
+    let mut out = String::with_capacity(s.len());
+    let mut it = s.chars();
+    while let Some(c) = it.next() {
+        if c == '\\' {
+            match it.next() {
+                Some('n') => out.push('\n'),
+                Some('\\') => out.push('\\'),
+                Some(o) => {
+                    out.push('\\');
+                    out.push(o)
+                }
+                None => out.push('\\'),
+            }
+        } else {
+            out.push(c);
+        }
+    }
+    out
+}
+
+fn parse_history(text: &str) -> Vec<Invocation> {
+    let mut h = Vec::new();
+    for line in text.lines() {
+        if line.is_empty() {
+            continue;
+        }
+        let f: Vec<&str> = line.splitn(5, '\t').collect();
+        if f.len() != 5 {
+            die("malformed history line");
+        }
+        h.push(Invocation {
+            thread: f[0].parse().unwrap_or_else(|_| die("thread")),
+            strategy: Strategy::parse(f[1]).unwrap_or_else(|| die("strategy")),
+            hseed: f[2].parse().unwrap_or_else(|_| die("hseed")),
+            decl: if f[3] == "-" {
+                None
+            } else {
+                Some(f[3].parse().unwrap_or_else(|_| die("decl")))
+            },
+            fault_tag: "",
+            src: unescape(f[4]),
+        });
+    }
+    h
+}
+
+/// One simulated compiler process = one real, fresh OS process: process-wide state (statics,
+/// lazily initialised tables, caches) starts pristine in every run, so a run is a pure function of
+/// its history and a failure replays exactly from the history alone.
+fn execute_in_child(exe: &std::path::Path, history: &[Invocation]) -> Result<Vec<Dig>, String> {
+    use std::io::Write;
+    use std::process::{Command, Stdio};
+    let mut child = Command::new(exe)
+        .arg("child")
+        .stdin(Stdio::piped())
+        .stdout(Stdio::piped())
+        .stderr(Stdio::null())
+        .spawn()
+        .map_err(|e| format!("spawn: {}", e))?;
+    let text = history_lines(history);
+    let mut stdin = child.stdin.take().unwrap();
+    let writer = std::thread::scope(|s| {
+        let w = s.spawn(move || {
+            let _ = stdin.write_all(text.as_bytes());
+        });
+        let out = child.wait_with_output();
+        let _ = w.join();
+        out
+    });
+    let out = writer.map_err(|e| format!("wait: {}", e))?;
+    if !out.status.success() {
+        return Err(format!("child exited with {:?}", out.status));
+    }
+    let mut v = Vec::with_capacity(history.len());
+    for line in String::from_utf8_lossy(&out.stdout).lines() {
+        let f: Vec<&str> = line.split('\t').collect();
+        if f.len() != 4 {
+            return Err(format!("malformed child line {:?}", line));
+        }
+        v.push(Dig {
+            class: f[0].to_string(),
+            len: f[1].parse().map_err(|_| "len")?,
+            h1: u64::from_str_radix(f[2], 16).map_err(|_| "h1")?,
+            h2: u64::from_str_radix(f[3], 16).map_err(|_| "h2")?,
+        });
+    }
+    if v.len() != history.len() {
+        return Err(format!("child answered {} of {} invocations", v.len(), history.len()));
+    }
+    Ok(v)
+}
+
+fn child_cmd() -> ! {
+    use std::io::Read;
+    let mut text = String::new();
+    std::io::stdin().read_to_string(&mut text).unwrap_or_else(|_| die("stdin"));
+    let h = parse_history(&text);
+    let o = execute(&h);
+    let mut out = String::new();
+    for x in &o {
+        let d = digest_of(x);
+        out.push_str(&format!("{}\t{}\t{:016x}\t{:016x}\n", d.class, d.len, d.h1, d.h2));
+    }
+    print!("{}", out);
+    std::process::exit(0)
 }
 
 fn outcome_text(o: &Outcome) -> String {
@@ -286,24 +431,25 @@ fn first_difference(a: &str, b: &str) -> String {
     format!("token #{}: expected «{}» observed «{}»", i, ctx(&ta), ctx(&tb))
 }
 
-/// minimise: drop history entries (keeping the reference and the differing invocation's
-/// declaration), collapse threads, replace plans by sip(0) where the difference survives
-fn shrink(history: &[Invocation]) -> (Vec<Invocation>, u32) {
+/// minimise: drop history entries, collapse threads, replace plans by sip(0) where the
+/// difference survives. Every candidate is executed in a fresh process.
+fn shrink(exe: &std::path::Path, history: &[Invocation]) -> (Vec<Invocation>, u32) {
     let mut attempts = 0u32;
     let mut best: Vec<Invocation> = history.to_vec();
     let fails = |h: &[Invocation], attempts: &mut u32| -> bool {
         *attempts += 1;
-        let o = execute(h);
-        find_mismatch(h, &o).is_some()
+        match execute_in_child(exe, h) {
+            Ok(o) => find_mismatch(h, &o).is_some(),
+            Err(_) => false,
+        }
     };
     // truncate after the mismatch
-    {
-        let o = execute(&best);
-        if let Some(m) = find_mismatch(&best, &o) {
-            best.truncate(m.at + 1);
-        } else {
-            return (best, attempts);
-        }
+    match execute_in_child(exe, &best) {
+        Ok(o) => match find_mismatch(&best, &o) {
+            Some(m) => best.truncate(m.at + 1),
+            None => return (best, attempts),
+        },
+        Err(_) => return (best, attempts),
     }
     let mut chunk = (best.len() / 2).max(1);
     loop {
@@ -404,6 +550,9 @@ fn run_cmd(args: &[String]) -> ! {
     let found: Mutex<Vec<J>> = Mutex::new(Vec::new());
     let samples: Mutex<BTreeMap<u64, J>> = Mutex::new(BTreeMap::new());
     let rejected_supported: Mutex<Vec<J>> = Mutex::new(Vec::new());
+    let child_failures: Mutex<Vec<String>> = Mutex::new(Vec::new());
+    let inproc = arg(args, "--inproc").map(|s| s == "1").unwrap_or(false);
+    let exe = std::env::current_exe().unwrap_or_else(|_| die("current_exe"));
 
     let work = || {
         let mut acc = Acc::default();
@@ -417,16 +566,28 @@ fn run_cmd(args: &[String]) -> ! {
             }
             for idx in a..(a + 16).min(end) {
                 let plan = plan_run(seed, idx, huge);
-                let outcomes = execute(&plan.history);
+                let outcomes: Vec<Dig> = if inproc {
+                    execute(&plan.history).iter().map(digest_of).collect()
+                } else {
+                    match execute_in_child(&exe, &plan.history) {
+                        Ok(o) => o,
+                        Err(e) => {
+                            child_failures.lock().unwrap().push(format!("run {}: {}", idx, e));
+                            stop.store(true, Ordering::SeqCst);
+                            break;
+                        }
+                    }
+                };
                 acc.runs += 1;
                 acc.invocations += plan.history.len() as u64;
                 let nthreads = plan.history.iter().map(|i| i.thread).max().unwrap_or(0) + 1;
                 acc.threads_hist[nthreads.min(3)] += 1;
                 let mut rd = fnv(plan.decls[0].src.as_bytes());
+                let mismatch = find_mismatch(&plan.history, &outcomes);
                 for (pos, (inv, o)) in plan.history.iter().zip(outcomes.iter()).enumerate() {
-                    *acc.outcome_classes.entry(outcome_class(o)).or_default() += 1;
+                    *acc.outcome_classes.entry(class_static(&o.class)).or_default() += 1;
                     *acc.strategies.entry(strat_name(inv.strategy)).or_default() += 1;
-                    rd = mix(rd ^ fnv(outcome_text(o).as_bytes()) ^ inv.hseed);
+                    rd = mix(rd ^ o.h1 ^ inv.hseed);
                     match inv.decl {
                         None => {
                             *acc.faults.entry(inv.fault_tag).or_default() += 1;
@@ -437,13 +598,16 @@ fn run_cmd(args: &[String]) -> ! {
                             if pos > 0 {
                                 acc.expansions_compared += 1;
                             }
-                            if !matches!(o, Outcome::Expanded(_)) {
+                            // refused on every schedule of this run: the generator's idea of "supported"
+                            // is wrong (C10/C11 territory). Refused on some schedules only is a mismatch
+                            // and is reported as such below.
+                            if o.class != "expanded" && mismatch.is_none() {
                                 acc.unexpected_reject_of_supported += 1;
                                 let mut r = rejected_supported.lock().unwrap();
                                 if r.len() < 5 {
                                     r.push(J::obj(vec![
                                         ("run_index", J::Int(idx as i128)),
-                                        ("outcome", J::s(format!("{:?}", o))),
+                                        ("outcome", J::s(o.class.clone())),
                                         ("src", J::s(decl.src.clone())),
                                     ]));
                                 }
@@ -489,8 +653,9 @@ fn run_cmd(args: &[String]) -> ! {
                                                         None => i.fault_tag.to_string(),
                                                     }),
                                                 ),
-                                                ("outcome", J::s(outcome_class(o))),
-                                                ("text_digest", J::s(format!("{:016x}", fnv(outcome_text(o).as_bytes())))),
+                                                ("outcome", J::s(o.class.clone())),
+                                                ("text_bytes", J::Int(o.len as i128)),
+                                                ("text_digest", J::s(format!("{:016x}", o.h1))),
                                             ])
                                         })
                                         .collect(),
@@ -499,13 +664,17 @@ fn run_cmd(args: &[String]) -> ! {
                         ]),
                     );
                 }
-                if let Some(m) = find_mismatch(&plan.history, &outcomes) {
+                if let Some(m) = mismatch {
                     let mut f = found.lock().unwrap();
                     if f.len() < 3 {
-                        let (min, attempts) = shrink(&plan.history);
-                        let mo = execute(&min);
-                        let mm = find_mismatch(&min, &mo).unwrap_or(m.clone());
-                        let (e, o) = (outcome_text(&mm.expected), outcome_text(&mm.observed));
+                        let (min, attempts) = shrink(&exe, &plan.history);
+                        // describe the minimised failure from a fresh process
+                        let (mm, diff, ec, oc) = describe_in_child(&exe, &min).unwrap_or((
+                            m.clone(),
+                            "(could not be re-described in a fresh process)".to_string(),
+                            outcomes[m.reference_at].class.clone(),
+                            outcomes[m.at].class.clone(),
+                        ));
                         f.push(J::obj(vec![
                             ("run_index", J::Int(idx as i128)),
                             ("declaration", J::s(plan.decls[m.decl].src.clone())),
@@ -513,11 +682,9 @@ fn run_cmd(args: &[String]) -> ! {
                             ("history_len_before_minimisation", J::Int(plan.history.len() as i128)),
                             ("reference_at", J::Int(mm.reference_at as i128)),
                             ("differs_at", J::Int(mm.at as i128)),
-                            ("first_difference", J::s(first_difference(&e, &o))),
-                            ("expected_digest", J::s(format!("{:016x}", fnv(e.as_bytes())))),
-                            ("observed_digest", J::s(format!("{:016x}", fnv(o.as_bytes())))),
-                            ("expected_class", J::s(outcome_class(&mm.expected))),
-                            ("observed_class", J::s(outcome_class(&mm.observed))),
+                            ("first_difference", J::s(diff)),
+                            ("expected_class", J::s(ec)),
+                            ("observed_class", J::s(oc)),
                             ("shrink_attempts", J::Int(attempts as i128)),
                         ]));
                     }
@@ -568,7 +735,12 @@ fn run_cmd(args: &[String]) -> ! {
         J::Obj(m.iter().map(|(k, v)| (k.to_string(), J::Int(*v as i128))).collect())
     };
     let found = found.into_inner().unwrap();
+    let cf = child_failures.into_inner().unwrap();
+    if !cf.is_empty() {
+        die(&format!("a simulated compiler process died: {}", cf[0]));
+    }
     let j = J::obj(vec![
+        ("process_model", J::s(if inproc { "in-process (debug only)" } else { "one fresh OS process per simulated compiler process" })),
         ("seed", J::Int(seed as i128)),
         ("from", J::Int(from as i128)),
         ("runs", J::Int(t.runs as i128)),
@@ -597,28 +769,72 @@ fn run_cmd(args: &[String]) -> ! {
     std::process::exit(if found.is_empty() { 0 } else { 1 })
 }
 
+fn class_static(c: &str) -> &'static str {
+    match c {
+        "expanded" => "expanded",
+        "parse_error" => "parse_error",
+        "aborted" => "aborted",
+        "rejected" => "rejected",
+        _ => "panicked",
+    }
+}
+
+/// runs `replay` on the history in a fresh process and parses its verdict line
+fn describe_in_child(exe: &std::path::Path, h: &[Invocation]) -> Option<(Mismatch, String, String, String)> {
+    use std::io::Write;
+    use std::process::{Command, Stdio};
+    let mut child = Command::new(exe)
+        .args(["replay", "--file", "-"])
+        .stdin(Stdio::piped())
+        .stdout(Stdio::piped())
+        .stderr(Stdio::null())
+        .spawn()
+        .ok()?;
+    let text = history_lines(h);
+    let mut stdin = child.stdin.take().unwrap();
+    let out = std::thread::scope(|s| {
+        let w = s.spawn(move || {
+            let _ = stdin.write_all(text.as_bytes());
+        });
+        let out = child.wait_with_output();
+        let _ = w.join();
+        out
+    })
+    .ok()?;
+    let so = String::from_utf8_lossy(&out.stdout).to_string();
+    let line = so.lines().find(|l| l.starts_with("MISMATCH "))?;
+    // MISMATCH invocation #A (class) differs from #R (class): diff
+    let rest = line.strip_prefix("MISMATCH invocation #")?;
+    let (a, rest) = rest.split_once(" (")?;
+    let (oc, rest) = rest.split_once(") differs from #")?;
+    let (r, rest) = rest.split_once(" (")?;
+    let (ec, diff) = rest.split_once("): ")?;
+    let at: usize = a.parse().ok()?;
+    let reference_at: usize = r.parse().ok()?;
+    Some((
+        Mismatch {
+            at,
+            reference_at,
+            decl: h[at].decl.unwrap_or(0),
+        },
+        diff.to_string(),
+        ec.to_string(),
+        oc.to_string(),
+    ))
+}
+
 /// replay: a file with one invocation per line: thread \t strategy \t hseed \t decl-id-or-"-" \t src (escaped \n)
 fn replay_cmd(args: &[String]) -> ! {
     let path = arg(args, "--file").unwrap_or_else(|| die("--file"));
-    let text = std::fs::read_to_string(path).unwrap_or_else(|_| die("cannot read --file"));
-    let mut h = Vec::new();
-    for line in text.lines() {
-        if line.is_empty() {
-            continue;
-        }
-        let f: Vec<&str> = line.splitn(5, '\t').collect();
-        if f.len() != 5 {
-            die("malformed replay line");
-        }
-        h.push(Invocation {
-            thread: f[0].parse().unwrap_or_else(|_| die("thread")),
-            strategy: Strategy::parse(f[1]).unwrap_or_else(|| die("strategy")),
-            hseed: f[2].parse().unwrap_or_else(|_| die("hseed")),
-            decl: if f[3] == "-" { None } else { Some(f[3].parse().unwrap_or_else(|_| die("decl"))) },
-            fault_tag: "",
-            src: f[4].replace("\\n", "\n"),
-        });
-    }
+    let text = if path == "-" {
+        use std::io::Read;
+        let mut t = String::new();
+        std::io::stdin().read_to_string(&mut t).unwrap_or_else(|_| die("stdin"));
+        t
+    } else {
+        std::fs::read_to_string(path).unwrap_or_else(|_| die("cannot read --file"))
+    };
+    let h = parse_history(&text);
     let o = execute(&h);
     for (i, (inv, out)) in h.iter().zip(o.iter()).enumerate() {
         println!(
@@ -635,10 +851,12 @@ fn replay_cmd(args: &[String]) -> ! {
     match find_mismatch(&h, &o) {
         Some(m) => {
             println!(
-                "MISMATCH invocation #{} differs from #{}: {}",
+                "MISMATCH invocation #{} ({}) differs from #{} ({}): {}",
                 m.at,
+                outcome_class(&o[m.at]),
                 m.reference_at,
-                first_difference(&outcome_text(&m.expected), &outcome_text(&m.observed))
+                outcome_class(&o[m.reference_at]),
+                first_difference(&outcome_text(&o[m.reference_at]), &outcome_text(&o[m.at]))
             );
             std::process::exit(1)
         }
@@ -694,6 +912,7 @@ fn main() {
     match args.get(1).map(|s| s.as_str()).unwrap_or("") {
         "run" => run_cmd(&args),
         "replay" => replay_cmd(&args),
+        "child" => child_cmd(),
         "gen-real" => gen_real_cmd(&args),
         "expand" => {
             let strategy = arg(&args, "--strategy").and_then(Strategy::parse).unwrap_or(Strategy::Sip);
